@@ -224,6 +224,8 @@ type autoGrowingCallFrameStack struct {
 	// It points to the next stack slot to use, so 0 means to use the 0th element in the segment, and a value of
 	// FramesPerSegment indicates that the segment is full and cannot accommodate another frame.
 	segSp uint8
+	// maxSize is the number of frames the stack may hold; the last segment need not be used completely.
+	maxSize int
 }
 
 var segmentPool sync.Pool
@@ -247,6 +249,7 @@ func newAutoGrowingCallFrameStack(maxSize int) callFrameStack {
 	cs := &autoGrowingCallFrameStack{
 		segments: make([]*callFrameStackSegment, (maxSize+(FramesPerSegment-1))/FramesPerSegment),
 		segIdx:   0,
+		maxSize:  maxSize,
 	}
 	cs.segments[0] = newCallFrameStackSegment()
 	return cs
@@ -258,7 +261,7 @@ func (cs *autoGrowingCallFrameStack) IsEmpty() bool {
 
 // IsFull returns true if the stack cannot receive any more stack pushes without overflowing
 func (cs *autoGrowingCallFrameStack) IsFull() bool {
-	return int(cs.segIdx) == len(cs.segments) && cs.segSp >= FramesPerSegment
+	return cs.Sp() >= cs.maxSize
 }
 
 func (cs *autoGrowingCallFrameStack) Clear() {
